@@ -453,6 +453,20 @@ pub fn init_from_input_systems() -> Vec<SysSpec> {
             });
         }
     }
+    // inputs read by init expressions ONLY (nothing else of the system mentions them)
+    for (m, init_t) in [i(), T::bin(Bin::Add, i(), T::lit(2, 1)), T::bin(Bin::Xor, i(), s("s2"))].into_iter().enumerate() {
+        out.push(SysSpec {
+            name: format!("initonly{m}"),
+            inputs: vec![("f2".into(), Ty::Bv(2)), ("g2".into(), Ty::Bv(2))],
+            states: vec![
+                StateSpec { name: "s2".into(), ty: Ty::Bv(2), init: Some(T::lit(2, 1)), next: Some(T::bin(Bin::Add, s("s2"), j())) },
+                StateSpec { name: "t2".into(), ty: Ty::Bv(2), init: Some(init_t), next: Some(T::bin(Bin::Add, s("t2"), j())) },
+            ],
+            outputs: vec![("o".into(), T::bin(Bin::Add, s("s2"), s("t2")))],
+            bads: vec![T::bin(Bin::Eq, s("t2"), T::lit(2, 3))],
+            constraints: vec![],
+        });
+    }
     out
 }
 
@@ -460,7 +474,7 @@ pub fn meta(rep: &mut Report) {
     rep.rule = "systems = S1 (full pools incl. div/rem) + S3(3) of skeletons K1..K7 (thorough: S1 + S3(4) + S2(32) + S3(5) of K1/K3/K4/K7), hand-built swap/delay/count2/delayin and an array-input system; each with and without names on every intermediate node. simplify_expressions runs on every system; replace_anonymous_inputs_with_zero runs on every renaming variant (0, 1 or 2 of the inputs/states renamed to _input_<n> / _state_<n>, all prefix combinations; in the quick tier the S3 systems get the reduced set: unrenamed, and each single symbol renamed). Oracle: input/state lists (minus the anonymous inputs), no init/next dropped or added, root counts and output names, type of every changed function, equality of every changed function with the original under ALL valuations of states and inputs (removed inputs = 0), no removed or undeclared symbol in the result, surviving names label equivalent functions, lock-step reference simulation over all input sequences of length 3 (quick) / 4 (thorough) from all initial states. evaluations = transformation calls; distinct_nontrivial = distinct (system, naming, pass) cases in which at least one init/next/output/bad/constraint expression changed".into();
     rep.assumptions = vec![
         "an input is anonymous iff its name starts with `_input` or `_state` (the constants of btor2/parse.rs); the pass looks at sys.inputs only, a state with such a name stays".into(),
-        "init expressions read earlier states only (no inputs), so anonymous inputs never occur in init".into(),
+        "in the skeleton families init expressions read earlier states only; init expressions that read inputs (also anonymous ones, also inputs that nothing else in the system mentions) come from the hand-built initin*/initonly* systems, for which the lock-step simulation is replaced by the function-level comparison".into(),
         "all values of all states and inputs are enumerated (at most 8 bits per system in the family, 16 for the hand-built 8-bit shapes)".into(),
     ];
 }
